@@ -264,6 +264,17 @@ Definition var_val (cx : ectx) (x : str) : option Qc :=
   | None => match vec cx x with Some l => nth_error l (comp cx) | None => None end
   end.
 
+(* the exact two-argument functions of the language: maxi / mini (numpy maximum / minimum) *)
+Definition qc_le (x y : Qc) : bool := Qle_bool (this x) (this y).
+Definition fn2 (f : str) (a b : option Qc) : option Qc :=
+  match a, b with
+  | Some x, Some y =>
+      if is_f f "maxi" then Some (if qc_le x y then y else x)
+      else if is_f f "mini" then Some (if qc_le x y then x else y)
+      else None
+  | _, _ => None
+  end.
+
 Fixpoint eval (cx : ectx) (e : expr) : option Qc :=
   match e with
   | Num ip fp => Some (num_val ip fp)
@@ -284,7 +295,8 @@ Fixpoint eval (cx : ectx) (e : expr) : option Qc :=
         | Some l => nth_error l (nat_of_digits ip)                                   (* v[i] *)
         | None => match mat cx v with Some m => nth2 m (nat_of_digits ip) (comp cx) | None => None end   (* A[i] *)
         end
-      else None
+      else fn2 f (var_val cx v) (Some (num_val ip []))
+  | Call f [a; b] => fn2 f (eval cx a) (eval cx b)
   | Call f [Var v; Num i []; Num j []] =>
       if is_f f "index_2d" then match mat cx v with Some m => nth2 m (nat_of_digits i) (nat_of_digits j) | None => None end
       else if is_f f "index_range" then                                              (* v[i:j] *)
